@@ -178,7 +178,7 @@ def enumerate_all(job):
         if len(out) >= limit:
             truncated = True
             break
-        prefix = todo.pop()
+        prefix = todo.pop(0) if job.get('order') == 'bfs' else todo.pop()
 
         def ch(opts, n, prefix=prefix):
             return prefix[n] if n < len(prefix) else opts[0]
@@ -188,6 +188,90 @@ def enumerate_all(job):
         for n in range(len(prefix), len(s)):
             for alt in opts_at[n][1:]:
                 todo.append(s[:n] + [alt])
+    return out, truncated
+
+
+def preempt_all(job):
+    """context-bounded schedules: the victim thread (default: thread 0) runs j of its steps
+    (every j up to the length of its run), then is preempted; the other threads run, each until
+    it blocks or finishes, in a fixed priority order (several orders are tried); the victim
+    resumes only when nobody else can move"""
+    import itertools
+    nproc = len(job['scripts'])
+    victim = job.get('victim', 0)
+    mains = [2 * p for p in range(nproc) if 2 * p != victim]
+    feeders = [2 * p + 1 for p in range(nproc)]
+    orders = []
+    for perm in itertools.permutations(mains):
+        orders.append(feeders + list(perm))
+        orders.append(list(perm) + feeders)
+    out, seen = [], set()
+    for order in orders[:job.get('max_orders', 8)]:
+        j = 0
+        while j <= 40:
+            state = dict(v=0)
+
+            def ch(opts, n, order=order, j=j, state=state):
+                if state['v'] < j and (victim, True) in opts:
+                    state['v'] += 1
+                    return (victim, True)
+                for idx in order:
+                    if (idx, True) in opts:
+                        return (idx, True)
+                if (victim, True) in opts:
+                    state['v'] += 1
+                    return (victim, True)
+                return opts[0]
+            rec, _ = run_once(job, ch)
+            key = json.dumps(rec['sched'])
+            if key not in seen:
+                seen.add(key)
+                out.append(rec)
+            if state['v'] < j:          # the victim has no j-th step
+                break
+            j += 1
+    return out
+
+
+def bounded_all(job):
+    """ALL schedules with at most K preemptions (K = job['preemptions']): a preemption is a
+    switch away from a thread that could have continued; switches at blocking/finishing points
+    are free.  Stateless DFS: each run follows a prefix, then the non-preemptive default policy
+    (keep the current thread while it is enabled, else the lowest enabled one)."""
+    K = job.get('preemptions', 1)
+    limit = job.get('max_leaves', 5000)
+    todo = [([], 0)]
+    out, truncated = [], False
+    while todo:
+        if len(out) >= limit:
+            truncated = True
+            break
+        prefix, used = todo.pop()
+        trace = []           # per step: (options, current thread before the step)
+
+        def ch(opts, n, prefix=prefix, trace=trace):
+            cur = trace[-1][2] if trace else None
+            if n < len(prefix):
+                c = prefix[n]
+            else:
+                c = (cur, True) if (cur, True) in opts else opts[0]
+            trace.append((list(opts), cur, c[0]))
+            return c
+        rec, _ = run_once(job, ch)
+        out.append(rec)
+        s = [tuple(x) for x in rec['sched']]
+        cost = used
+        # cost of the prefix part is `used`; walk the free part and branch
+        for n in range(len(prefix), len(s)):
+            opts, cur, _ = trace[n]
+            cur_enabled = cur is not None and any(o[0] == cur for o in opts)
+            for alt in opts:
+                if alt == s[n]:
+                    continue
+                c = 1 if (cur_enabled and alt[0] != cur) else 0
+                if cost + c <= K:
+                    todo.append((s[:n] + [alt], cost + c))
+            # the default choice itself never preempts
     return out, truncated
 
 
@@ -207,6 +291,17 @@ def main():
             rec, _ = run_once(job, replay_chooser(job['sched']))
             rec['job'] = j
             records.append(rec)
+        elif mode == 'preempt':
+            for rec in preempt_all(job):
+                rec['job'] = j
+                records.append(rec)
+        elif mode == 'bounded':
+            recs, trunc = bounded_all(job)
+            for rec in recs:
+                rec['job'] = j
+            records.extend(recs)
+            if trunc:
+                truncated.append(j)
         elif mode == 'enumerate':
             recs, trunc = enumerate_all(job)
             for rec in recs:
